@@ -89,6 +89,8 @@ type Store struct {
 	dbs    []*DB
 	levels CompactionLevels
 
+	pathLocks map[string]*pathLock // per-path RegisterDB/UnregisterDB serialization; guarded by mu
+
 	wg     sync.WaitGroup
 	ctx    context.Context
 	cancel func()
@@ -286,11 +288,48 @@ func (s *Store) DBs() []*DB {
 	return slices.Clone(s.dbs)
 }
 
+// lockPath serializes RegisterDB and UnregisterDB calls for one database path.
+// Two DB instances of the same path must never be open at the same time, not
+// even transiently: both would copy the WAL into the same meta directory
+// (same staging file names) and upload to the same replica.
+func (s *Store) lockPath(path string) (unlock func()) {
+	s.mu.Lock()
+	if s.pathLocks == nil {
+		s.pathLocks = make(map[string]*pathLock)
+	}
+	l := s.pathLocks[path]
+	if l == nil {
+		l = &pathLock{}
+		s.pathLocks[path] = l
+	}
+	l.refs++
+	s.mu.Unlock()
+
+	l.mu.Lock()
+	return func() {
+		l.mu.Unlock()
+		s.mu.Lock()
+		if l.refs--; l.refs == 0 {
+			delete(s.pathLocks, path)
+		}
+		s.mu.Unlock()
+	}
+}
+
+type pathLock struct {
+	mu   sync.Mutex
+	refs int
+}
+
 // RegisterDB registers a new database with the store and starts monitoring it.
 func (s *Store) RegisterDB(db *DB) error {
 	if db == nil {
 		return fmt.Errorf("db required")
 	}
+
+	// Registrations (and unregistrations) of the same path run one at a time;
+	// a concurrent duplicate waits here and then finds the path registered.
+	defer s.lockPath(db.Path())()
 
 	// First check: see if database already exists
 	s.mu.Lock()
@@ -347,6 +386,10 @@ func (s *Store) UnregisterDB(ctx context.Context, path string) error {
 	if path == "" {
 		return fmt.Errorf("db path required")
 	}
+
+	// Wait for an in-flight registration of this path; a registration that
+	// follows waits until this instance is closed.
+	defer s.lockPath(path)()
 
 	s.mu.Lock()
 
